@@ -9,6 +9,7 @@ import (
 	"crypto/tls"
 	"fmt"
 	"net"
+	"net/http"
 	"net/url"
 	"strings"
 	"time"
@@ -418,6 +419,11 @@ func runCell(p *pki, o *origin, comp *origin, cl cell, timeout time.Duration) (r
 				c.SetProxy(nil)
 			}
 			c.GetTransport().CloseIdleConnections()
+		case "wrap":
+			// a pass-through transport middleware: transparent, and bound to the transport it is installed on
+			c.GetTransport().WrapRoundTripFunc(func(rt http.RoundTripper) req.HttpRoundTripFunc {
+				return func(r *http.Request) (*http.Response, error) { return rt.RoundTrip(r) }
+			})
 		case "fp":
 			c.SetTLSFingerprintChrome()
 		case "handshake":
@@ -794,6 +800,8 @@ func coqOps(ops []op) string {
 			add(0, "OH2C "+hk.CoqBool(x.B))
 		case "dialtls":
 			add(0, "ODialTLS "+coqTLS(x.TLS))
+		case "wrap":
+			add(0, "OWrap")
 		case "fp":
 			add(0, "OFingerprint")
 		case "handshake":
